@@ -74,6 +74,7 @@ StrTexts ==
   \cup { S("[") \o Q \o S("C:") \o <<92, 92>> \o Q \o S(", ") \o Q \o S("f.txt") \o Q \o S("]"),
           Q \o <<92, 92>> \o Q \o S(" == ") \o Q \o S("b") \o Q, Q \o S("a") \o <<92>> \o Q \o S(" + ") \o Q \o S("b") \o Q,
           S("{k: ") \o Q \o <<92, 92>> \o Q \o S(", j: ") \o Q \o <<92, 34>> \o Q \o S("}") }
+  \cup { S("// n") \o <<10>> \o Q \o <<c>> \o Q : c \in {13, 10, 97, 233} } \cup { S("// n") \o <<13, 10>> \o Q \o S("a") \o <<13, 10>> \o S("b") \o <<13>> \o Q }
   \cup { Q \o S("\\u{41") \o Q, Q \o S("\\u41") \o Q, Q \o S("\\u") \o Q, Q \o S("\\u{41}}") \o Q, Q \o S("a\\u{41}b\\u{42}") \o Q,
          Q \o S("\\u{41") , Q \o S("abc"), Q, Q \o S("a") \o <<92>> \o Q, Q \o <<92, 92>> \o Q, Q \o <<92, 92, 92>> \o Q,
          Q \o S("a//b") \o Q, Q \o S("a") \o <<10>> \o S("//b") \o Q, Q \o Q, Q \o Q \o Q, Q \o S("a") \o Q \o S("b") \o Q }
